@@ -157,6 +157,7 @@ func ruleR5(c *Ctx, prop string) {
 			"C01": {"M2", "M3", "M4", "M5", "M6", "M7", "M8", "M9", "M13"},
 			"C13": {"M1", "M2", "M13"},
 			"C15": {"M4", "M5"},
+			"C06": {"M5", "M6"},
 			"C18": {"M4", "M9", "M10", "M11"},
 			"C02": {"M2", "M4", "M13"},
 			"C17": {"M2", "M4", "M13"},
@@ -399,6 +400,13 @@ func (c *Ctx) checkM3(run *ssa.Function, env *ssa.MakeMap, mi *modelInfo) {
 	if len(inStores) == 0 || len(wStores) == 0 {
 		c.violate("R5", key, c.pos(run.Pos()), fmt.Sprintf("environment is not filled from both the caller's inputs and the initializers (input stores=%d, initializer stores=%d)", len(inStores), len(wStores)))
 		return
+	}
+	// every tensor the caller supplies is bound: the store runs in every iteration of the loop over the inputs
+	for _, i := range inStores {
+		if !runsEveryIteration(i.Block()) {
+			c.violate("R5", key, c.pos(i.Pos()), "a tensor supplied by the caller is bound to its name only on a condition (some entries of Run's inputs are skipped): the node that consumes it sees the initializer's default, or no tensor at all")
+			return
+		}
 	}
 	for _, w := range wStores {
 		for _, i := range inStores {
